@@ -208,7 +208,7 @@ def check_case(case, res=None):
 
 
 def plan(tier):
-    return [{"n": 500, "depth": 3}] * 16 if tier == "quick" else [{"n": 15000, "depth": 3}] * 40 + [{"n": 4000, "depth": 5}] * 8
+    return [{"n": 500, "depth": 3}] * 16 if tier == "quick" else [{"n": 6000, "depth": 3}] * 40 + [{"n": 2000, "depth": 5}] * 8
 
 
 def run_shard(spec, seed, res, only_bucket=None):
